@@ -191,8 +191,11 @@ def agg_rows(prog, db, ag, env):
             if isinstance(a, AVar):
                 if a.name in ag.bound:
                     if a.name in local:
-                        # the same aggregated variable twice: not generated (Ascent would shadow)
-                        raise RefError('aggregated var repeated')
+                        # the same aggregated variable twice: an equality constraint on the two columns
+                        if local[a.name] != v:
+                            ok = False
+                            break
+                        continue
                     local[a.name] = v
                 elif a.name in env:
                     if env[a.name] != v:
